@@ -14,6 +14,8 @@ CORE = H.QUEUE_CORE + ["ActiveObject.__post_event", "ActiveFabricSource.thread_r
 class PostHarness:
     name = "c04"
     horizon = 2500
+    lock_points = False     # locks of the signal registry / singletons: a preemption before an uncontended
+    #                         acquire is equivalent to one at the thread's previous scheduling point
     fair_k = 80
 
     def __init__(self, mode="line", codes="core"):
